@@ -2,7 +2,7 @@
    spec/router/RouteAction.tla       route actions (header mutations at route / virtual host / router level, prefix / regex /
                                      host rewrite, redirect, direct response) and the effective timeouts: declarative meaning
                                      (Sem*) against the implementation-shaped evaluation (Impl*), 14 defect switches
-   spec/router/RouteActionRetry.tla  the retry decision table, budget, fresh host, never after the reply started, request actions applied once whatever the attempt; 8 defect switches
+   spec/router/RouteActionRetry.tla  the retry decision table, budget, fresh host, never after the reply started, request actions applied once whatever the attempt, every unit of the budget spent buys an attempt (a per-try timeout is the outcome of a pending attempt); 10 defect switches
    spec/router/RouteActionTrace.tla, RouteActionRetryTrace.tla   TLC validates what the real code did.
    Binding: every case TLC enumerates is configured into an in-process MOSN (HTTP/1) through the router manager and one real
    request is sent: the scripted upstream records what each attempt received / the hosts answer, refuse, close or hang as the
@@ -20,7 +20,7 @@ ACT_DEFECTS = ("RewriteSkippedWhenMarked", "RewriteSkippedWhenMarked_hop", "Appe
                "PrefixRewriteKeepsPrefix", "AutoHostOverHostRewrite", "AutoHostBeforeMutation", "RedirectKeepsPort",
                "RedirectDropsQuery", "RedirectDefault302", "HeaderOverProtocol", "TryNotDisabled")
 RETRY_DEFECTS = ("GlobalTimerRestartsOnRetry", "FinalizeOnRetry", "RetryOnOverflow", "RetryOnIgnored", "StatusListIgnored", "BudgetOffByOne", "BudgetIsNumRetries",
-                 "SameHostRetry", "RetryAfterResponse")
+                 "SameHostRetry", "RetryAfterResponse", "PerTryTimerSurvivesRetry")
 
 
 def levels_class(lv):
